@@ -41,7 +41,7 @@ class NfdRegister(PrefixRegisterer):
     async def register(self, name: enc.NonStrictName) -> bool:
         # Fix the issue that NFD only allows one packet signed by a specific key for a timestamp number
         async with self._prefix_register_semaphore:
-            for _ in range(10):
+            for _ in range(1000):  # (a coarse wall clock may take 16 ms and more to show another reading)
                 now = utils.timestamp()
                 if now > self._last_command_timestamp:
                     self._last_command_timestamp = now
@@ -78,7 +78,7 @@ class NfdRegister(PrefixRegisterer):
     async def unregister(self, name: enc.NonStrictName) -> bool:
         # Fix the issue that NFD only allows one packet signed by a specific key for a timestamp number
         async with self._prefix_register_semaphore:
-            for _ in range(10):
+            for _ in range(1000):  # (a coarse wall clock may take 16 ms and more to show another reading)
                 now = utils.timestamp()
                 if now > self._last_command_timestamp:
                     self._last_command_timestamp = now
